@@ -264,7 +264,7 @@ class ClientSSM(SSM):
         # acquire the device info
         if self.device_info:
             if _debug: ClientSSM._debug("    - acquire device information")
-            self.ssmSAP.deviceInfoCache.acquire(self.device_info)
+            self.ssmSAP.deviceInfoCache.acquire(self.pdu_address)
 
     def set_state(self, newState, timer=0):
         """This function is called when the client wants to change state."""
@@ -700,7 +700,7 @@ class ServerSSM(SSM):
         # acquire the device info
         if self.device_info:
             if _debug: ServerSSM._debug("    - acquire device information")
-            self.ssmSAP.deviceInfoCache.acquire(self.device_info)
+            self.ssmSAP.deviceInfoCache.acquire(self.pdu_address)
 
     def set_state(self, newState, timer=0):
         """This function is called when the client wants to change state."""
